@@ -1,5 +1,5 @@
 SPECIFICATION Spec
-CONSTANTS Mode = "energy"  Variant = "ok"  Family = "mixed"  List = { }  Steps = 1
+CONSTANTS Mode = "energy"  Variant = "ok"  Family = "mixed"  List = { }  Steps = 1  PairMod = 1
           Extra = { 0, 1100, 1010, 110 }
 INVARIANT TypeOK
 INVARIANT WallsHold
